@@ -279,7 +279,7 @@ func trimControlCharsAndSpaces(s string) string {
 		istart++
 	}
 	iend := len(s) - 1
-	for iend >= 0 {
+	for iend >= istart {
 		if s[iend] > ' ' {
 			break
 		}
